@@ -59,7 +59,7 @@ def integerise(TT, Qs, Tall, qi, n_bins, n_median_bins=1000):
 	Qmax = max(q.shape[1] for q in Qs)
 	ncols = T.shape[1]
 	gamma = numpy.full((ncols, Qmax), numpy.nan)
-	gamma_int = numpy.full((ncols, Qmax), 99, dtype="int8")
+	gamma_int = numpy.full((ncols, Qmax), 99, dtype="int16")
 	f = numpy.full((Qmax, n_bins + 1), numpy.nan)
 	medians = numpy.full(Qmax, numpy.nan)
 	median_bins = numpy.full((n_median_bins, 2), numpy.nan)
